@@ -296,6 +296,17 @@ def main():
                     continue
                 parts = split_calls(t["events"])
                 for ix in range(1, len(parts)):
+                    # comparable only if the earlier computations left no unflushed item in the (user-level) batch
+                    # registry: a stale pending batch is state of the batching layer, not of the scheduler
+                    created, answered = set(), set()
+                    for part in parts[:ix]:
+                        for e in part:
+                            if e["e"] == "NewItem":
+                                created.add(e["a"])
+                            elif e["e"] == "Done":
+                                answered.add(e["a"])
+                    if created - answered:
+                        continue
                     sub.append({"id": len(sub), "prog": solo_of(t["prog"], ix), "events": normalise_subtrace(parts[ix]),
                                 "src": t["id"], "ix": ix})
             sub = sub[: (1500 if tier == "quick" else 15000)]
